@@ -12,7 +12,17 @@ package pstore
 // answered by the vault and by a reference filter over the model.
 //
 // Readings (weaker ones where the statement is silent):
-//   * identity of a result is its plan id; the other ListResult fields are not compared ("returns exactly the plans");
+//   * identity of a result is its plan id. "Returns the plans": once a stream has been drained COMPLETELY, every entry must
+//     describe its own plan as stored (rules search:entry-state / list:entry-state / *:entry-fields): State is present
+//     (the sqlite reader sets it for every row) and State.Status is the status last written for that plan (Create, then
+//     UpdatePlan), State.Start / State.End are the instants last written when the model has a non-zero instant (the zero
+//     time.Time has no documented stored form: label entry_zero_time_unjudged), and ID, GroupID, Name, Descr and
+//     SubmitTime (by instant) are those of the plan. For a Search with a status filter every entry's State.Status must
+//     be one of the statuses asked for (rule search:entry-status-unasked). The comparison happens after the drain, as
+//     crash recovery and listings use the entries: a producer that keeps writing into memory its entries share shows;
+//   * "huge store" (about one case in 400, sqlite in-memory arm): 1001-2049 minimal plans (1 block, 1 sequence, 1 action)
+//     are added to the store, most of them Running, and the case asks Search(Running), Search(Running|other) and
+//     List(N+5): "every plan durably Running is returned by a status search" has no size bound;
 //   * order is judged with the submit times of the model, ties in any order;
 //   * List(limit >= 1): exactly min(limit, n) results and no omitted plan is newer than a returned one. List(0) is not
 //     documented in storage.Reader (sqlite treats <= 0 as "no limit", the cosmos comment says 0 = no limit): only what
@@ -66,6 +76,10 @@ type StorePlan struct {
 	ViaUpdate bool
 	// Deleted: the plan is deleted again before the queries run.
 	Deleted bool
+	// Start / End: the plan's State.Start / State.End at rest (store.TimeOf encoding, 0 = the zero time), written together
+	// with Status.
+	Start int64 `json:",omitempty"`
+	End   int64 `json:",omitempty"`
 }
 
 // Query is one query against the store. Plan references are indices into Plans; an index >= len(Plans) denotes an id that
@@ -99,7 +113,23 @@ type StoreCase struct {
 	SearchAfterClose bool `json:",omitempty"`
 	// Queries; a Search(ByStatus=[Running]) is always appended by the interpreter.
 	Queries []Query
+	// Huge > 0: the "huge store" class. After Plans, Huge minimal plans (1 block, 1 sequence, 1 action, no check groups;
+	// ids, names and submit times are a pure function of Seed and the index, see c15HugeSpec) are created; the first
+	// HugeOthers of them are brought to status HugeOther (index into store.Statuses, never Running), all the others to
+	// Running.
+	Huge       int `json:",omitempty"`
+	HugeOthers int `json:",omitempty"`
+	HugeOther  int `json:",omitempty"`
 }
+
+// c15HugeSizes are the store sizes of the huge class: just above 1000 rows, and well above.
+var c15HugeSizes = []int{1001, 1002, 1500, 2049}
+
+// c15HugeOneIn: a sqlite-mem case is a huge store with probability 1/c15HugeOneIn (86% of the cases are sqlite-mem: 1 in 400).
+const c15HugeOneIn = 344
+
+// c15HugeMax bounds Huge for hand-written replay files.
+const c15HugeMax = 5000
 
 var c15Cfg = store.GenCfg{MaxBlocks: 1, MaxSeqs: 1, MaxActions: 1, MaxGroupActions: 1, GroupOneIn: 4, Plain: true}
 
@@ -119,6 +149,10 @@ func genStoreCase(t *rapid.T) StoreCase {
 		}
 		if k := rapid.IntRange(0, len(submitPool)+1).Draw(t, l+".submitk"); k < len(submitPool) {
 			sp.Spec.Submit = submitPool[k]
+		}
+		if rapid.IntRange(0, 2).Draw(t, l+".times") != 0 {
+			sp.Start = store.GenNonZeroTime(t, l+".start")
+			sp.End = store.GenTime(t, l+".end")
 		}
 		c.Plans = append(c.Plans, sp)
 	}
@@ -145,6 +179,26 @@ func genStoreCase(t *rapid.T) StoreCase {
 				q.Statuses = append(q.Statuses, rapid.IntRange(0, len(store.Statuses)-1).Draw(t, "status"))
 			}
 		}
+	}
+	if c.Arm == store.ArmSqliteMem && store.Uniform(t, c15HugeOneIn, "huge") == c15HugeOneIn-1 { // not 0: shrinking (all draws towards 0) must lead out of the class
+		c.Huge = rapid.SampledFrom(c15HugeSizes).Draw(t, "hugesize")
+		c.HugeOther = rapid.SampledFrom([]int{0, 2, 3, 4}).Draw(t, "hugeother")
+		switch rapid.IntRange(0, 3).Draw(t, "hugeotherskind") {
+		case 0: // every plan Running
+		case 1:
+			c.HugeOthers = 1
+		case 2:
+			c.HugeOthers = c.Huge - 1001 // exactly 1001 Running
+		default:
+			c.HugeOthers = rapid.IntRange(0, c.Huge-1000).Draw(t, "hugeothers") // at least 1000 Running
+		}
+		c.Queries = []Query{
+			{Kind: "search", Statuses: []int{1}},
+			{Kind: "search", Statuses: []int{c.HugeOther, 1}},
+			{Kind: "list", Limit: c.Huge + 5},
+		}
+		c.SearchAfterClose = rapid.IntRange(0, 3).Draw(t, "searchafterclose") == 3
+		return c
 	}
 	nq := rapid.IntRange(1, 12).Draw(t, "nqueries")
 	for i := 0; i < nq; i++ {
@@ -243,6 +297,10 @@ type c15plan struct {
 	status  workflow.Status
 	submit  int64
 	present bool
+	// what was last written for the plan besides the status: name and description (Create), State.Start / State.End in
+	// the store.TimeOf encoding (Create or UpdatePlan)
+	name, descr string
+	start, end  int64
 }
 
 type c15run struct {
@@ -250,6 +308,9 @@ type c15run struct {
 	arm   string
 	h     *store.Handle
 	plans []c15plan
+	// nspec is the number of plans that come from StoreCase.Plans (query indices refer to those); huge-class plans follow
+	nspec int
+	index map[uuid.UUID]int
 	seed  uint64
 	// stalled: a stream was never closed; the vault's only connection may still be in use and must not be touched again
 	stalled bool
@@ -343,19 +404,108 @@ func (r *c15run) busy(ctx context.Context, q Query) {
 }
 
 func (r *c15run) idOf(i int) uuid.UUID {
-	if i >= 0 && i < len(r.plans) {
+	if i >= 0 && i < r.nspec && i < len(r.plans) {
 		return r.plans[i].id
 	}
 	return store.UnknownID(r.seed, uint32(i))
 }
 
 func (r *c15run) byID(id uuid.UUID) *c15plan {
+	if len(r.plans) > 32 {
+		if len(r.index) != len(r.plans) {
+			r.index = make(map[uuid.UUID]int, len(r.plans))
+			for i := range r.plans {
+				r.index[r.plans[i].id] = i
+			}
+		}
+		if i, ok := r.index[id]; ok {
+			return &r.plans[i]
+		}
+		return nil
+	}
 	for i := range r.plans {
 		if r.plans[i].id == id {
 			return &r.plans[i]
 		}
 	}
 	return nil
+}
+
+// checkEntries judges the content of the entries of a stream that has been drained completely and whose ids have passed
+// checkCommon (every id is a stored plan): each entry must describe its own plan as stored. asked is the status filter
+// of a Search (nil otherwise).
+func (r *c15run) checkEntries(kind, descr string, items []storage.ListResult, asked []workflow.Status) bool {
+	stamp := func(t time.Time) string {
+		if t.IsZero() {
+			return "the zero time"
+		}
+		return t.UTC().Format(time.RFC3339Nano)
+	}
+	for i, it := range items {
+		p := r.byID(it.ID)
+		if p == nil {
+			continue // checkCommon has reported it
+		}
+		if it.State == nil {
+			// only the sqlite arms get here, and their reader builds a State for every row
+			r.fail(kind+":entry-state", "%s: result %d (%s) has no State; stored status %v", descr, i, it.ID, p.status)
+			return false
+		}
+		if len(asked) > 0 {
+			ok := false
+			for _, s := range asked {
+				ok = ok || s == it.State.Status
+			}
+			if !ok {
+				r.fail(kind+":entry-status-unasked", "%s: result %d (%s) reports status %v, which was not asked for (stored status %v); entry read after the stream was drained",
+					descr, i, it.ID, it.State.Status, p.status)
+				return false
+			}
+		}
+		if it.State.Status != p.status {
+			r.fail(kind+":entry-state", "%s: result %d (%s) reports status %v, the status last written for that plan is %v; entry read after the stream was drained (%d results)",
+				descr, i, it.ID, it.State.Status, p.status, len(items))
+			return false
+		}
+		for _, tm := range []struct {
+			name string
+			want int64
+			got  time.Time
+		}{{"Start", p.start, it.State.Start}, {"End", p.end, it.State.End}} {
+			if tm.want == 0 {
+				r.res.Label("entry_zero_time_unjudged")
+				continue
+			}
+			if !tm.got.Equal(store.TimeOf(tm.want)) {
+				r.fail(kind+":entry-state", "%s: result %d (%s) reports State.%s %s, last written for that plan: %s; entry read after the stream was drained (%d results)",
+					descr, i, it.ID, tm.name, stamp(tm.got), stamp(store.TimeOf(tm.want)), len(items))
+				return false
+			}
+		}
+		switch {
+		case it.GroupID != p.group:
+			r.fail(kind+":entry-fields", "%s: result %d (%s) reports group %s, stored group %s", descr, i, it.ID, it.GroupID, p.group)
+		case it.Name != p.name:
+			r.fail(kind+":entry-fields", "%s: result %d (%s) reports name %q, stored name %q", descr, i, it.ID, it.Name, p.name)
+		case it.Descr != p.descr:
+			r.fail(kind+":entry-fields", "%s: result %d (%s) reports description %q, stored description %q", descr, i, it.ID, it.Descr, p.descr)
+		case !it.SubmitTime.Equal(store.TimeOf(p.submit)):
+			r.fail(kind+":entry-fields", "%s: result %d (%s) reports submit time %s, stored submit time %s", descr, i, it.ID, stamp(it.SubmitTime), stamp(store.TimeOf(p.submit)))
+		default:
+			continue
+		}
+		return false
+	}
+	if len(items) >= 2 {
+		r.res.Label("entries_judged_multi")
+		for _, it := range items[1:] {
+			if a, b := r.byID(items[0].ID), r.byID(it.ID); a != nil && b != nil && (a.status != b.status || a.start != b.start || a.end != b.end) {
+				r.res.Label("entries_judged_distinct_states")
+				break
+			}
+		}
+	}
+	return true
 }
 
 // checkStream validates a result list against the expected id set. exact = the set must be exactly want; otherwise want
@@ -550,6 +700,9 @@ func (r *c15run) search(ctx context.Context, q Query, rulePrefix string) {
 	if !r.checkCommon(rulePrefix, descr, items, want) {
 		return
 	}
+	if !r.checkEntries(rulePrefix, descr, items, f.ByStatus) {
+		return
+	}
 	if len(items) != len(want) {
 		got := map[uuid.UUID]bool{}
 		for _, it := range items {
@@ -562,7 +715,12 @@ func (r *c15run) search(ctx context.Context, q Query, rulePrefix string) {
 			}
 		}
 		sort.Strings(missing)
-		r.fail(rulePrefix+":missing", "%s: %d matching plans, %d returned; missing %v", descr, len(want), len(items), missing)
+		more := ""
+		if len(missing) > 10 {
+			more = fmt.Sprintf(" and %d more", len(missing)-10)
+			missing = missing[:10]
+		}
+		r.fail(rulePrefix+":missing", "%s: %d matching plans, %d returned; missing %v%s", descr, len(want), len(items), missing, more)
 	}
 }
 
@@ -610,6 +768,9 @@ func (r *c15run) list(ctx context.Context, limit int) {
 	if !r.checkCommon("list", descr, items, all) {
 		return
 	}
+	if !r.checkEntries("list", descr, items, nil) {
+		return
+	}
 	if limit <= 0 {
 		r.res.Label("list_limit0_count_unjudged")
 		return
@@ -635,6 +796,90 @@ func (r *c15run) list(ctx context.Context, limit int) {
 			}
 		}
 	}
+}
+
+// c15HugeSpec is plan i of the huge class: the smallest plan Submit accepts (1 block, 1 sequence, 1 action, no check groups),
+// pristine. Everything is a pure function of (caseSeed, i, n): the id seed, the group (all four group values occur), the
+// name and a submit time that is distinct for every i and NOT monotone in the creation order (i*7919 mod n is a
+// permutation for every size in use, 7919 being prime and larger than none of their factors).
+func c15HugeSpec(caseSeed uint64, i, n int) store.PlanSpec {
+	return store.PlanSpec{
+		Seed:    store.Mix64(caseSeed^store.Mix64(0x4855474500000000+uint64(i)))&^0xFF | uint64(0x80|i&0x7F),
+		Name:    fmt.Sprintf("h%d", i),
+		Descr:   "huge",
+		Group:   i % 4,
+		MetaNil: true,
+		Submit:  1_650_000_000_000_000_001 + int64((i*7919)%n)*1_000,
+		Blocks: []store.BlockSpec{{Name: "b", Descr: "b", Concurrency: 1, Seqs: []store.SeqSpec{{Name: "s", Descr: "s",
+			Actions: []store.ActionSpec{{Name: "a", Descr: "a", Plugin: store.PlugNilAction, Timeout: int64(30 * time.Second)}}}}}},
+	}
+}
+
+// buildHuge adds the plans of the huge class to the store: pristine Create, then Read + UpdatePlan to the status at rest
+// (and a Start instant of its own), exactly as the small plans are written. false: the case is over (skip or verdict).
+func (r *c15run) buildHuge(ctx context.Context, c StoreCase) bool {
+	res, h := r.res, r.h
+	n := min(c.Huge, c15HugeMax)
+	others := min(max(c.HugeOthers, 0), n)
+	other := store.StatusOf(c.HugeOther)
+	res.Label("huge_store")
+	began := time.Now()
+	taken := map[uuid.UUID]bool{}
+	for _, p := range r.plans {
+		taken[p.id] = true
+	}
+	running := 0
+	for i := 0; i < n; i++ {
+		spec := c15HugeSpec(c.Seed, i, n)
+		for taken[store.PlanID(spec)] { // 2^-60 per pair; the ids of a case must be distinct by construction
+			spec.Seed += 0x100
+		}
+		taken[store.PlanID(spec)] = true
+		plan := store.Build(spec)
+		id := plan.ID
+		var cerr error
+		if guard(res, "C15", r.arm, fmt.Sprintf("Create of huge-class plan %d", i), func() { cerr = h.Vault.Create(ctx, plan) }) {
+			return false
+		}
+		if cerr != nil {
+			res.Skip = true
+			res.Label("setup_create_failed")
+			return false
+		}
+		status := workflow.Running
+		if i < others {
+			status = other
+		} else {
+			running++
+		}
+		start := spec.Submit + 1
+		var live *workflow.Plan
+		var rerr, uerr error
+		if guard(res, "C15", r.arm, "Read during setup", func() { live, rerr = h.Vault.Read(ctx, id) }) {
+			return false
+		}
+		if rerr != nil || live == nil || live.State == nil {
+			res.Skip = true
+			res.Label("setup_read_failed")
+			return false
+		}
+		live.State.Status, live.State.Start = status, store.TimeOf(start)
+		if guard(res, "C15", r.arm, "UpdatePlan during setup", func() { uerr = h.Vault.UpdatePlan(ctx, live) }) {
+			return false
+		}
+		if uerr != nil {
+			res.Skip = true
+			res.Label("setup_update_failed")
+			return false
+		}
+		r.plans = append(r.plans, c15plan{id: id, group: store.GroupID(spec.Group), status: status, submit: spec.Submit, present: true,
+			name: spec.Name, descr: spec.Descr, start: start})
+	}
+	if running > 1000 {
+		res.Label("huge_store_over_1000_matching")
+	}
+	vprop.Count("huge_build_ms", time.Since(began).Milliseconds())
+	return true
 }
 
 func checkStoreCase(c StoreCase) (res vprop.Result) {
@@ -664,9 +909,12 @@ func checkStoreCase(c StoreCase) (res vprop.Result) {
 	// 1. build the store through the public API
 	for i, sp := range c.Plans {
 		spec := sp.Spec
-		viaUpdate := sp.ViaUpdate || sp.Status == 0
+		want := store.StateSpec{Status: sp.Status, Start: sp.Start, End: sp.End}
+		pristine := want == store.StateSpec{}
+		viaUpdate := sp.ViaUpdate || pristine
+		spec.State = store.StateSpec{}
 		if !viaUpdate {
-			spec.State.Status = sp.Status
+			spec.State = want
 			res.Label("create_with_status_direct")
 		}
 		plan := store.Build(spec)
@@ -679,7 +927,7 @@ func checkStoreCase(c StoreCase) (res vprop.Result) {
 			// a vault may refuse a plan that already carries a status (the statements give Create the definition only):
 			// build the same store the engine's way instead
 			res.Label("create_nonpristine_refused")
-			spec.State.Status = 0
+			spec.State = store.StateSpec{}
 			viaUpdate = true
 			plan = store.Build(spec)
 			if guard(&res, "C15", arm, fmt.Sprintf("Create of plan %d (pristine)", i), func() { cerr = h.Vault.Create(ctx, plan) }) {
@@ -691,7 +939,7 @@ func checkStoreCase(c StoreCase) (res vprop.Result) {
 			res.Label("setup_create_failed")
 			return res
 		}
-		if viaUpdate && sp.Status != 0 {
+		if viaUpdate && !pristine {
 			var live *workflow.Plan
 			var rerr, uerr error
 			if guard(&res, "C15", arm, "Read during setup", func() { live, rerr = h.Vault.Read(ctx, id) }) {
@@ -703,6 +951,7 @@ func checkStoreCase(c StoreCase) (res vprop.Result) {
 				return res
 			}
 			live.State.Status = store.StatusOf(sp.Status)
+			live.State.Start, live.State.End = store.TimeOf(sp.Start), store.TimeOf(sp.End)
 			if guard(&res, "C15", arm, "UpdatePlan during setup", func() { uerr = h.Vault.UpdatePlan(ctx, live) }) {
 				return res
 			}
@@ -712,8 +961,10 @@ func checkStoreCase(c StoreCase) (res vprop.Result) {
 				return res
 			}
 		}
-		r.plans = append(r.plans, c15plan{id: id, group: store.GroupID(spec.Group), status: store.StatusOf(sp.Status), submit: spec.Submit, present: true})
+		r.plans = append(r.plans, c15plan{id: id, group: store.GroupID(spec.Group), status: store.StatusOf(sp.Status), submit: spec.Submit, present: true,
+			name: spec.Name, descr: spec.Descr, start: sp.Start, end: sp.End})
 	}
+	r.nspec = len(r.plans)
 	for i, sp := range c.Plans {
 		if !sp.Deleted {
 			continue
@@ -729,6 +980,11 @@ func checkStoreCase(c StoreCase) (res vprop.Result) {
 		}
 		r.plans[i].present = false
 		res.Label("has_deleted")
+	}
+	if c.Huge > 0 {
+		if !r.buildHuge(ctx, c) {
+			return res
+		}
 	}
 	if c.Reopen && arm == store.ArmSqliteFile {
 		if err := h.Reopen(); err != nil {
@@ -803,7 +1059,7 @@ func checkStoreCase(c StoreCase) (res vprop.Result) {
 			}
 			known, unknown := false, false
 			for _, i := range q.IDs {
-				if i >= 0 && i < len(r.plans) {
+				if i >= 0 && i < r.nspec {
 					known = true
 				} else {
 					unknown = true
